@@ -119,12 +119,14 @@ Trees(z) ==
     [] Family = "block" -> Blocks(z)
 
 -----------------------------------------------------------------------------
-NamingOffsets == IF Tier = "quick" THEN {0} ELSE {0, 12, 24}
+(* the poetic family is wide (all sequences of three items in the thorough tier): one naming and few mixed tapes for it *)
+Narrow == Tier = "quick" \/ Family = "poetic"
+NamingOffsets == IF Narrow THEN {0} ELSE {0, 12, 24}
 (* the canonical rendering and every rendering with exactly one non-default choice *)
 Tapes1(alts) == {<<>>} \cup UNION { { [j \in 1..i |-> IF j = i THEN v ELSE 0] : v \in 1..(alts[i] - 1) } : i \in 1..Len(alts) }
 (* full tapes: every choice point takes a pseudo-random alternative (linear congruences with different multipliers) *)
 Mixed(n, a, b) == [i \in 1..n |-> (a * i * i + b * i + a + b) % 47]
-MixedTapes(n) == { Mixed(n + 4, ab[1], ab[2]) : ab \in (IF Tier = "quick" THEN {<<3, 7>>, <<5, 11>>, <<17, 2>>} ELSE {1, 3, 5, 7, 11, 13, 17, 19, 23} \X {2, 7, 9, 14, 22, 31}) }
+MixedTapes(n) == { Mixed(n + 4, ab[1], ab[2]) : ab \in (IF Narrow THEN {<<3, 7>>, <<5, 11>>, <<17, 2>>} ELSE {1, 3, 5, 7, 11, 13, 17, 19, 23} \X {2, 7, 9, 14, 22, 31}) }
 Tapes(alts) == Tapes1(alts) \cup MixedTapes(Len(alts))
 
 RECURSIVE RepStrG(_, _)
